@@ -49,6 +49,15 @@ def main():
                 rep.assumptions.append("a later leg did not complete: %s" % str(e)[:300])
                 return rep.finish()
             raise
+        except Exception:
+            # the same for an internal error of a later leg (e.g. a self-test that finds nothing to work on because the run before
+            # it crashed inside the code under test): what was observed stays observed
+            if rep.violations:
+                traceback.print_exc()
+                print("INTERNAL-ERROR %s (after violations were found; verdict stands)" % pid, file=sys.stderr)
+                rep.assumptions.append("a later leg did not complete (internal error of the check)")
+                return rep.finish()
+            raise
         return rep.finish()
     except lib.ToolError as e:
         print("TOOL-ERROR %s: %s" % (pid, e), file=sys.stderr)
